@@ -596,3 +596,141 @@ Proof.
   - repeat constructor; cbn; unfold int64, minInt64, maxInt64, is_u64; lia.
   - split; [cbn; lia|]. vm_compute. repeat split.
 Qed.
+
+(* ---- Next / Seek scripts against the cursor specification ---------------------------------------- *)
+
+Lemma xor_next_num it bs it' bs' : xor_next it bs = Some (it', bs') -> i_num it' = i_num it + 1.
+Proof.
+  unfold xor_next. intros H.
+  destruct (Z.eqb_spec (i_num it) 0) as [E0|N0].
+  { destruct (get_varint true bs) as [[t r]|]; [|discriminate]. destruct (get_bits 64 r) as [[v r2]|]; [|discriminate].
+    injection H as H1 H2. subst it'. cbn. lia. }
+  destruct (Z.eqb_spec (i_num it) 1) as [E1|N1].
+  { destruct (get_uvarint true bs) as [[tD r]|]; [|discriminate].
+    destruct (xor_read (i_v it) (i_lead it) (i_trail it) r) as [[[[v l] tr] r2]|]; [|discriminate].
+    injection H as H1 H2. subst it'. cbn. lia. }
+  destruct (xor_read_dod bs) as [[dod r]|]; [|discriminate].
+  destruct (xor_read (i_v it) (i_lead it) (i_trail it) r) as [[[[v l] tr] r2]|]; [|discriminate].
+  injection H as H1 H2. subst it'. cbn. lia.
+Qed.
+
+Definition cur_of (it : xit) : option sample :=
+  if i_num it =? 0 then None else Some (mkS 0 (i_t it) (i_v it)).
+
+(* the cursor stands where the abstract cursor (cur, rest) stands: [rest] is what the remaining
+   bits decode to *)
+Definition CurInv (total : Z) (c : xcur) (rest : list sample) : Prop :=
+  cu_err c = false /\ 0 <= i_num (cu_it c) /\ i_num (cu_it c) + Z.of_nat (length rest) = total /\
+  exists fin, xor_iter (length rest) (cu_it c) (cu_bits c) = (rest, Some fin).
+
+Lemma CurInv_next total c x rest : CurInv total c (x :: rest) ->
+  exists c', xcur_next total c = (c', true) /\ CurInv total c' rest /\ cur_of (cu_it c') = Some x.
+Proof.
+  intros [He [H0 [Hn [fin Hit]]]]. cbn [length xor_iter] in Hit.
+  destruct (xor_next (cu_it c) (cu_bits c)) as [[it' bs']|] eqn:Hnx; [|discriminate].
+  destruct (xor_iter (length rest) it' bs') as [l r] eqn:Hrest. injection Hit as E1 E2 E3. subst.
+  pose proof (xor_next_num _ _ _ _ Hnx) as Hnum.
+  exists (mkXC it' bs' false). unfold xcur_next. rewrite He. cbn [orb].
+  replace (i_num (cu_it c) =? total) with false
+    by (symmetry; apply Z.eqb_neq; cbn [length] in Hn; rewrite Nat2Z.inj_succ in Hn; lia).
+  rewrite Hnx. split; [reflexivity|]. split.
+  - unfold CurInv. cbn. split; [reflexivity|]. split; [lia|]. split.
+    + cbn [length] in Hn. rewrite Nat2Z.inj_succ in Hn. lia.
+    + exists fin. exact Hrest.
+  - unfold cur_of. cbn. replace (i_num it' =? 0) with false by (symmetry; apply Z.eqb_neq; lia). reflexivity.
+Qed.
+
+Lemma CurInv_end total c : CurInv total c [] -> xcur_next total c = (c, false).
+Proof.
+  intros [He [H0 [Hn _]]]. unfold xcur_next. rewrite He. cbn [orb length] in *.
+  replace (i_num (cu_it c) =? total) with true by (symmetry; apply Z.eqb_eq; lia). reflexivity.
+Qed.
+
+Lemma seek_loop_spec total t : forall rest fuel c,
+  CurInv total c rest -> (length rest < fuel)%nat ->
+  cur_of (cu_it c) = None \/ (exists s, cur_of (cu_it c) = Some s /\ s_t s < t) ->
+  exists c' rest',
+    xcur_seek_loop fuel total t c = Some (c', snd (seek_rest t (cur_of (cu_it c)) rest)) /\
+    seek_rest t (cur_of (cu_it c)) rest = (cur_of (cu_it c'), rest', snd (seek_rest t (cur_of (cu_it c)) rest)) /\
+    CurInv total c' rest'.
+Proof.
+  induction rest as [|x rest IH]; intros fuel c HI Hf Hcond.
+  - destruct fuel as [|fuel]; [cbn in Hf; lia|]. cbn [xcur_seek_loop seek_rest snd].
+    assert (Hc : (i_t (cu_it c) <? t) || (i_num (cu_it c) =? 0) = true).
+    { unfold cur_of in Hcond. destruct (Z.eqb_spec (i_num (cu_it c)) 0); [apply orb_true_r|].
+      destruct Hcond as [Hc|[s [Hc Hlt]]]; [discriminate|]. injection Hc as Hc. subst s. cbn in Hlt.
+      apply orb_true_iff. left. apply Z.ltb_lt. exact Hlt. }
+    rewrite Hc, (CurInv_end _ _ HI). exists c, []. split; [reflexivity|]. split; [reflexivity|exact HI].
+  - destruct fuel as [|fuel]; [cbn in Hf; lia|]. cbn [xcur_seek_loop].
+    assert (Hc : (i_t (cu_it c) <? t) || (i_num (cu_it c) =? 0) = true).
+    { unfold cur_of in Hcond. destruct (Z.eqb_spec (i_num (cu_it c)) 0); [apply orb_true_r|].
+      destruct Hcond as [Hc|[s [Hc Hlt]]]; [discriminate|]. injection Hc as Hc. subst s. cbn in Hlt.
+      apply orb_true_iff. left. apply Z.ltb_lt. exact Hlt. }
+    rewrite Hc. destruct (CurInv_next _ _ _ _ HI) as [c1 [Hnx [HI1 Hcur1]]]. rewrite Hnx.
+    cbn [seek_rest]. destruct (Z.leb_spec t (s_t x)) as [Hle|Hgt].
+    + (* the loop stops at x *)
+      cbn [snd]. exists c1, rest. split.
+      * destruct fuel as [|fuel']; cbn [xcur_seek_loop].
+        -- assert (Hstop : (i_t (cu_it c1) <? t) || (i_num (cu_it c1) =? 0) = false).
+           { unfold cur_of in Hcur1. destruct (Z.eqb_spec (i_num (cu_it c1)) 0); [discriminate|].
+             injection Hcur1 as Hx. subst x. cbn in Hle. rewrite orb_false_r. apply Z.ltb_ge. exact Hle. }
+           rewrite Hstop. reflexivity.
+        -- assert (Hstop : (i_t (cu_it c1) <? t) || (i_num (cu_it c1) =? 0) = false).
+           { unfold cur_of in Hcur1. destruct (Z.eqb_spec (i_num (cu_it c1)) 0); [discriminate|].
+             injection Hcur1 as Hx. subst x. cbn in Hle. rewrite orb_false_r. apply Z.ltb_ge. exact Hle. }
+           rewrite Hstop. reflexivity.
+      * rewrite Hcur1. split; [reflexivity|exact HI1].
+    + destruct (IH fuel c1 HI1 ltac:(cbn [length] in Hf; lia)) as [c' [rest' [Hl [Hs HI']]]].
+      { right. exists x. split; [exact Hcur1|exact Hgt]. }
+      rewrite Hcur1 in Hl, Hs. exists c', rest'. split; [exact Hl|]. split; [exact Hs|exact HI'].
+Qed.
+
+Lemma xor_script_spec total : forall acts c rest,
+  CurInv total c rest -> (Z.of_nat (length rest) <= total) ->
+  xor_script total c acts = Some (spec_script (cur_of (cu_it c)) rest acts).
+Proof.
+  induction acts as [|a acts IH]; intros c rest HI Hlen; [reflexivity|].
+  assert (Hfuel : (length rest < S (Z.to_nat total))%nat) by lia.
+  destruct a as [|t].
+  - (* Next *)
+    cbn [xor_script spec_script]. destruct rest as [|x rest].
+    + rewrite (CurInv_end _ _ HI). rewrite (IH c [] HI Hlen). reflexivity.
+    + destruct (CurInv_next _ _ _ _ HI) as [c1 [Hnx [HI1 Hcur1]]]. rewrite Hnx.
+      rewrite (IH c1 rest HI1 ltac:(cbn [length] in Hlen; lia)). rewrite Hcur1.
+      unfold cur_of in Hcur1. destruct (i_num (cu_it c1) =? 0); [discriminate|]. injection Hcur1 as Hx. rewrite Hx. reflexivity.
+  - (* Seek t *)
+    cbn [xor_script spec_script]. unfold xcur_seek.
+    assert (He : cu_err c = false) by (destruct HI as [He _]; exact He). rewrite He.
+    destruct (cur_of (cu_it c)) as [c0|] eqn:Hcur.
+    + destruct (Z.leb_spec t (s_t c0)) as [Hle|Hgt].
+      * (* already there *)
+        cbn [xcur_seek_loop].
+        assert (Hstop : (i_t (cu_it c) <? t) || (i_num (cu_it c) =? 0) = false).
+        { unfold cur_of in Hcur. destruct (Z.eqb_spec (i_num (cu_it c)) 0); [discriminate|].
+          injection Hcur as Hx. subst c0. cbn in Hle. rewrite orb_false_r. apply Z.ltb_ge. exact Hle. }
+        rewrite Hstop. rewrite (IH c rest HI Hlen), Hcur.
+        unfold cur_of in Hcur. destruct (i_num (cu_it c) =? 0); [discriminate|]. injection Hcur as Hx. rewrite Hx. reflexivity.
+      * destruct (seek_loop_spec total t rest (S (Z.to_nat total)) c HI Hfuel) as [c' [rest' [Hl [Hs HI']]]].
+        { right. exists c0. split; [exact Hcur|exact Hgt]. }
+        rewrite Hcur in Hl, Hs. rewrite Hl.
+        assert (Hlen' : Z.of_nat (length rest') <= total) by (destruct HI' as [_ [G0 [Gn _]]]; lia).
+        rewrite (IH c' rest' HI' Hlen'). rewrite Hs.
+        destruct (snd (seek_rest t (Some c0) rest)); [|reflexivity].
+        unfold cur_of. destruct (i_num (cu_it c') =? 0) eqn:Hz; [|reflexivity].
+        (* ok = true means the cursor stands on a sample *)
+        exfalso. clear - Hs Hz. unfold cur_of in Hs. rewrite Hz in Hs.
+        revert Hs. generalize (Some c0). induction rest as [|y r IHr]; intros cur0 Hs; cbn in Hs.
+        -- injection Hs as _ _ Hb. discriminate.
+        -- destruct (t <=? s_t y); [injection Hs as Hc _ _; discriminate|]. exact (IHr _ Hs).
+    + destruct (seek_loop_spec total t rest (S (Z.to_nat total)) c HI Hfuel) as [c' [rest' [Hl [Hs HI']]]].
+      { left. exact Hcur. }
+      rewrite Hcur in Hl, Hs. rewrite Hl.
+      assert (Hlen' : Z.of_nat (length rest') <= total) by (destruct HI' as [_ [G0 [Gn _]]]; lia).
+      rewrite (IH c' rest' HI' Hlen'). rewrite Hs.
+      destruct (snd (seek_rest t None rest)) eqn:Hok; [|reflexivity].
+      unfold cur_of. destruct (i_num (cu_it c') =? 0) eqn:Hz; [|reflexivity].
+      exfalso. clear - Hs Hz Hok. unfold cur_of in Hs. rewrite Hz in Hs. rewrite Hok in Hs.
+      revert Hs. generalize (@None sample). induction rest as [|y r IHr]; intros cur0 Hs; cbn in Hs.
+      -- injection Hs as _ _ Hb. discriminate.
+      -- destruct (t <=? s_t y); [injection Hs as Hc _ _; discriminate|]. exact (IHr _ Hs).
+Qed.
